@@ -490,7 +490,7 @@ def run_extraction(apath, case, sh, workdir):
         t1 = box.get("t1", _time.perf_counter())
         obs["n_at_return"] = len(cb.ev)
         obs["alive_after_close"] = bool(rt is not None and rt.is_alive())
-        if obs["close_exc"] is not None and rt is not None:
+        if (obs["close_exc"] is not None or obs["alive_after_close"]) and rt is not None:
             rt.join(30)
             try:
                 z.reporterd = None
@@ -1156,12 +1156,19 @@ def repeat_case(workdir, delay_ms, model=None):
     z.reset()
     z.extract(targets=["r1", "r4"], factory=arch.Collect(), callback=cb2)
     n2 = len(cb2.ev)
-    exc = None
-    try:
-        z.close()
-    except Exception as e:  # noqa
-        exc = "%s: %s" % (type(e).__name__, e)
-    at_return = (len(cb1.ev), len(cb2.ev))
+    box = {}
+
+    def do_close():
+        try:
+            z.close()
+        except Exception as e:  # noqa
+            box["exc"] = "%s: %s" % (type(e).__name__, e)
+        box["at_return"] = (len(cb1.ev), len(cb2.ev))
+    ct = threading.Thread(target=do_close, daemon=True)
+    ct.start()
+    ct.join(10.0)                 # close() joins without timeout: the test bounds the wait
+    exc = "close() did not return within 10 s" if ct.is_alive() else box.get("exc")
+    at_return = box.get("at_return", (len(cb1.ev), len(cb2.ev)))
     _time.sleep(0.05)
 
     def flat(cb):
